@@ -5,20 +5,34 @@
    pathw: summed over ALL ancilla qubits, the squared modulus at output bits k is the product along the path k of
    cos^2(ay/2) (bit 0) / sin^2(ay/2) (bit 1)  (C11_weights).  C11_path_weight: if every node's weights split the squared
    norm M p of its sub-vector into the two halves (checked numerically on the tree of every run), that product is
-   M k / M [] = |a_k|^2 for a unit vector.  The bidirectional variant for s < n (top-down sub-circuits below the split) is
-   evaluated, not proved; s = n is the top-down circuit (C01's theorems, gate-list correspondence in this check). *)
+   M k / M [] = |a_k|^2 for a unit vector.
+   C11_bdsp_marginal: the same for the bidirectional initializer with 1 <= s < n, where the leaves of the tree are the
+   sub-registers below the split, each prepared by its own sub-circuit (any circuit touching only its register - executable
+   premise localb; the sub-circuits of the run are taken from the definition itself): the output distribution is the product
+   of the node weights times the squared amplitude of the sub-register state.  Premise `normed` (every sub-register state has
+   norm one) and, in C11_path_weight, that the squared amplitudes of the sub-register states are M (p ++ k) / M p, are
+   checked numerically on every run; that the top-down sub-circuits prepare those states is C01's subject.
+   s = n is the top-down circuit (C01's theorems, gate-list correspondence in this check). *)
 From Coq Require Import Reals List Bool Arith QArith.
 From Coquelicot Require Import Complex.
 From QV Require Import Sem SumQ Dcsp DcspMarg DcspModel TopDownWalk.
 Import ListNotations.
 Open Scope R_scope.
 
-Theorem C11_dcsp_marginal : forall (t : qtree) (d : nat), qbalanced d t = true -> nodupb (qqubits t) = true ->
+Theorem C11_dcsp_marginal : forall (t : qtree) (d : nat), qbalanced d t = true -> nodupb (qqubits t) = true -> nosub t = true ->
   forall b, (forall p, ~ In p (qqubits t) -> get b p = false) ->
-  sumq (rest (treeR t)) (fun x => Cn2 (drun (map gateR (bottom_up_q t)) ket0 x)) b
+  sumq (rest (treeR t)) (fun x => Cn2 (drun (map gateR (bdsp_gates_q t)) ket0 x)) b
   = pathw (treeR t) (map (get b) (qchain t)).
 Proof. exact dcsp_model_marginal. Qed.
 Print Assumptions C11_dcsp_marginal.
+
+Theorem C11_bdsp_marginal : forall (t : qtree) (d : nat),
+  qbalanced d t = true -> nodupb (qqubits t) = true -> localb t = true -> normed (treeR t) ->
+  forall b, (forall p, ~ In p (qqubits t) -> get b p = false) ->
+  sumq (rest (treeR t)) (fun x => Cn2 (drun (map gateR (bdsp_gates_q t)) ket0 x)) b
+  = pathw (treeR t) (map (get b) (qchain t)).
+Proof. exact bdsp_model_marginal. Qed.
+Print Assumptions C11_bdsp_marginal.
 
 Theorem C11_weights : forall ay az, w0 ay az = cos (ay / 2) * cos (ay / 2) /\ w1 ay az = sin (ay / 2) * sin (ay / 2).
 Proof. intros ay az. split. apply w0_cos. apply w1_sin. Qed.
@@ -30,6 +44,6 @@ Proof. intros t d M k Hb Hk Hs. exact (pathw_splits t d M [] k Hb Hk Hs). Qed.
 Print Assumptions C11_path_weight.
 
 (* the state has norm one on the tree's qubits (so the distribution above is normalised) *)
-Theorem C11_dcsp_norm : forall (t : atree) (d : nat), balanced d t -> NoDup (qubits t) -> forall b, nrm t b = 1.
-Proof. intros t d Hb Hn b. exact (proj1 (marginal t d Hb Hn b)). Qed.
-Print Assumptions C11_dcsp_norm.
+Theorem C11_norm : forall (t : atree) (d : nat), balanced d t -> wfsub t -> normed t -> NoDup (qubits t) -> forall b, nrm t b = 1.
+Proof. intros t d Hb W Nm Hn b. exact (proj1 (marginal t d Hb W Nm Hn b)). Qed.
+Print Assumptions C11_norm.
